@@ -1,4 +1,5 @@
 import LettreVerif.Model.BodyEnc
+import LettreVerif.Proofs.B64Lines
 import LettreVerif.Model.Dkim
 import LettreVerif.Spec.Cost
 /-!
@@ -41,6 +42,13 @@ theorem relaxed_headers_no_growth (m : Dkim.Mode) (h : Bytes) : (Dkim.relH m h).
 /-- Base64 output length is exactly 4 · ⌈n/3⌉. -/
 theorem base64_length (b : Bytes) : (Base64.enc b).length = 4 * ((b.length + 2) / 3) := by
   fun_induction Base64.enc b <;> simp_all <;> omega
+
+/-- The base64 body (76-character lines, CRLF between them) is at most twice the content plus four octets. -/
+theorem base64_body_linear (b : Bytes) : (BodyEnc.b64Body b).length ≤ 2 * b.length + 4 := by
+  unfold BodyEnc.b64Body
+  split
+  · simp
+  · exact BodyEnc.b64Lines_size _ b
 
 /-! The timing rule on concrete series: linear and n·log n series pass, a quadratic one does not. -/
 example : Cost.superLinear [(65536, 25000), (131072, 50000), (262144, 101000), (524288, 203000)] = false := by decide
